@@ -279,4 +279,52 @@ IsCubeRotation(pts, imgs) == /\ Len(imgs) = Len(pts)
 \* a rotation is accepted as undone when either does it
 InvCands == << << <<3, 1>>, <<2, -1>>, <<1, 1>> >>, << <<3, -1>>, <<2, -1>>, <<1, -1>> >> >>
 ApplyCand(c, ang) == [k \in 1..3 |-> c[k][2] * ang[c[k][1]]]
+
+\* ==================================================================================
+\* F. world / process state: a SESSION of calls in one process
+\* ==================================================================================
+\* The statement makes every conversion a function of its arguments.  So what a call returns depends on its
+\* arguments only: not on the calls made earlier in the same process (by the caller, by another entry point, or
+\* by the function itself), nor on what the caller did to the arrays it was handed (results are the caller's).
+\* A session is a sequence of steps; a step is a call, optionally followed by its undoing with each candidate
+\* inverse (rotate), optionally followed by the caller overwriting the result arrays (Scribble).  The invariant
+\* is: every call works with the parameters it was GIVEN, as it does in a fresh world (empty memo).
+\* Mechanisms: "none" no state between calls; "exact" a memo keyed by the exact parameters; "g6" a memo keyed
+\* by the six-significant-digit image of the Euler angles (a '%g' key): DEVIATES on twin angles that agree to six
+\* digits; "alias" a memo with exact keys that hands out its own storage: DEVIATES once the caller scribbles.
+\* World angles are integers in units of 1e-7 degree (nine significant digits of a degree-scale angle).
+WUnit == 10000000
+RECURSIVE WPow10(_)
+WPow10(n) == IF n <= 0 THEN 1 ELSE 10 * WPow10(n - 1)
+RECURSIVE WDigits(_)
+WDigits(m) == IF m < 10 THEN 1 ELSE 1 + WDigits(m \div 10)
+WSign(a) == IF a < 0 THEN -1 ELSE 1
+\* the six-significant-digit image of an angle (half up)
+G6(a) == LET m == VAbs(a)  nd == WDigits(m) IN
+         IF nd <= 6 THEN a ELSE LET q == WPow10(nd - 6) IN WSign(a) * (((m + q \div 2) \div q) * q)
+\* the twin of an angle: 4 units more (in magnitude) in its n-th significant digit
+WTwin(a, n) == a + WSign(a) * 4 * WPow10(WDigits(VAbs(a)) - n)
+TwinDigits == {7, 8, 9}
+MemoKinds == {"none", "exact", "g6", "alias"}
+\* a call = [fn, p]: p the Euler angles of rotate, or <<selector, epoch>> of a conversion
+WorldKey(mk, c) == [fn |-> c.fn, p |-> IF mk = "g6" /\ c.fn = "rotate" THEN [k \in DOMAIN c.p |-> G6(c.p[k])] ELSE c.p]
+WorldHit(mk, memo, c) == mk # "none" /\ WorldKey(mk, c) \in DOMAIN memo
+\* does the call work with the parameters it was given?
+WorldOk(mk, memo, c) == WorldHit(mk, memo, c) => (memo[WorldKey(mk, c)].p = c.p /\ memo[WorldKey(mk, c)].clean)
+\* the memo a call leaves behind; scr: the caller then overwrites the result it was handed
+WorldPut(mk, memo, c, scr) ==
+    IF mk = "none" THEN memo
+    ELSE LET key == WorldKey(mk, c)
+             old == IF key \in DOMAIN memo THEN memo[key] ELSE [p |-> c.p, clean |-> TRUE]
+             new == [p |-> old.p, clean |-> old.clean /\ ~(mk = "alias" /\ scr)]
+         IN [k \in DOMAIN memo \cup {key} |-> IF k = key THEN new ELSE memo[k]]
+\* the calls of one step: the call itself, then (undo) rotate with each candidate inverse.  "randcap" is ANOTHER public
+\* entry point of the module (drawing points in a cap centred at p = <<ra, dec>> with dorot=True): it rotates the points
+\* it drew by rotate(0, dec, 0) and rotate(ra - 90, 0, 0) - calls made inside the process like any other
+StepCalls(st) == IF st.c.fn = "randcap"
+                 THEN << [fn |-> "rotate", p |-> <<0, st.c.p[2], 0>>], [fn |-> "rotate", p |-> <<st.c.p[1] - 90 * WUnit, 0, 0>>] >>
+                 ELSE IF st.undo THEN <<st.c>> \o [k \in DOMAIN InvCands |-> [fn |-> "rotate", p |-> ApplyCand(InvCands[k], st.c.p)]]
+                 ELSE <<st.c>>
+\* tolerance of "the same outcome as in a fresh world": on the sky, 1e-9 degree (vector lanes may differ in the last bit)
+WorldTol9 == 1
 =============================================================================
